@@ -63,7 +63,11 @@ func (x *Exec) eval(e ast.Expr, st *State) Term {
 			// the contract accepts a panic here (a value of the wrong dynamic type was configured by the caller)
 			st.assume(ok)
 		} else {
-			x.safety(st, "type-assert", ok, "type assertion "+x.exprString(e), e.Pos())
+			kind := "type-assert"
+			if isInterface(x.subst(types.Unalias(x.typeOf(e.Type)))) {
+				kind = "type-assert-iface" // (fails for a nil operand: a hazard of its own)
+			}
+			x.safety(st, kind, ok, "type assertion "+x.exprString(e), e.Pos())
 		}
 		return v
 	case *ast.FuncLit:
